@@ -126,6 +126,7 @@ class SectionUnit(Unit):
     cls = None
     with_creator = True
     with_config = False
+    stdout_silent = True          # a section decoder never prints on stdout (generic obligation, pyvc/unit.py)
     contracts = DS_CONTRACTS + [CDisplayCompID]
 
     def hdr(self, S):
